@@ -2,6 +2,6 @@
 # Regenerate the obligation registries (only when the check passes on the unchanged tree).
 cd /verif
 for id in "$@"; do
-  rm -f registry/$id.json
+  rm -f registry/$id.json registry/$id-partial.json registry/$id-sweep.json
   GOVC_WRITE_REGISTRY=1 ./check $id | grep -v KNOWN | cut -c1-200
 done
